@@ -19,7 +19,9 @@ CONSTANTS NPts,      \* number of points
           MaxCut,    \* connection cuts the environment may make
           Cap,       \* capacity of the outstation's event buffer
           MaxLate,   \* response / confirm timeouts that may fire although the peer is alive (lateness)
-          UnsolOn    \* unsolicited reporting configured
+          UnsolOn,   \* unsolicited reporting configured
+          PollOnlyOnConnect   \* the master polls only to complete the integrity poll of a new connection: afterwards
+                              \* the picture is kept current by unsolicited reporting alone (the library's default)
 
 Pts == 1..NPts
 FragIds == 0..3
@@ -84,6 +86,7 @@ Stop == ~stopped /\ stopped' = TRUE
 \* integrity poll of a new connection, or a periodic / final poll: events of all classes, then class 0
 MasterPoll ==
     /\ up /\ ~mwait /\ mwait' = TRUE
+    /\ (PollOnlyOnConnect => mneed)
     /\ mo' = Append(mo, [k |-> "poll", id |-> 0])
     /\ UNCHANGED <<cur, owner, nupd, evq, disc, up, om, awaiting, fid, mneed, gotE, gotS, lastS, sinceS, ncut, nlate, stopped>>
 
@@ -149,13 +152,22 @@ OstTimeout ==
     /\ ~stopped /\ nlate < MaxLate /\ awaiting # -1 /\ mo = <<>> /\ awaiting' = -1 /\ evq' = Unwrite(evq) /\ nlate' = nlate + 1
     /\ UNCHANGED <<cur, owner, nupd, disc, up, om, mo, fid, mneed, mwait, gotE, gotS, lastS, sinceS, ncut, stopped>>
 
+\* the confirm cannot come any more (neither the fragment nor its confirm is in flight): the confirm timer fires -
+\* not lateness, and therefore fair
+OstGiveUp ==
+    /\ awaiting # -1
+    /\ ~\E i \in 1..Len(mo) : mo[i].k = "confirm" /\ mo[i].id = awaiting
+    /\ ~\E i \in 1..Len(om) : om[i].id = awaiting
+    /\ awaiting' = -1 /\ evq' = Unwrite(evq)
+    /\ UNCHANGED <<cur, owner, nupd, disc, up, om, mo, fid, mneed, mwait, gotE, gotS, lastS, sinceS, ncut, nlate, stopped>>
+
 -----------------------------------------------------------------------------
 Env == (\E p \in Pts : Upd(p)) \/ Cut \/ Stop
-Sys == Conn \/ MasterPoll \/ MasterTimeout \/ MasterRecv \/ OstRecvPoll \/ OstRecvConfirm \/ OstUnsol \/ OstTimeout
+Sys == Conn \/ MasterPoll \/ MasterTimeout \/ MasterRecv \/ OstRecvPoll \/ OstRecvConfirm \/ OstUnsol \/ OstTimeout \/ OstGiveUp
 Next == Env \/ Sys
 \* the timeouts are not fair: they model lateness, which a stopped environment no longer produces
 Fairness == WF_vars(Conn) /\ WF_vars(MasterPoll) /\ WF_vars(MasterRecv) /\ WF_vars(OstRecvPoll)
-            /\ WF_vars(OstRecvConfirm) /\ WF_vars(OstUnsol) /\ WF_vars(Stop)
+            /\ WF_vars(OstRecvConfirm) /\ WF_vars(OstUnsol) /\ WF_vars(Stop) /\ WF_vars(OstGiveUp)
 Spec == Init /\ [][Next]_vars /\ Fairness
 
 -----------------------------------------------------------------------------
